@@ -25,7 +25,7 @@ pub struct SimCase {
     /// Per target: a current record exists at time zero (one-shot "skipped" answers).
     pub uptodate: Vec<bool>,
     /// Per target: 0 never fails; 1 script always exits non-zero; 2 cannot be launched;
-    /// 3 script fails on its first run only.
+    /// 3 script fails on its first run only; 4 script succeeds once, then fails every time.
     pub fail: Vec<u8>,
     /// Watch mode: targets that receive one file-change notice each (schedule decides when).
     pub notices: Vec<usize>,
@@ -492,6 +492,7 @@ pub fn run_case(case: &SimCase) -> SimRun {
                 let outcome = match mode {
                     1 => Outcome::Fail,
                     3 if nth == 0 => Outcome::Fail,
+                    4 if nth >= 1 => Outcome::Fail,
                     _ => Outcome::Ok,
                 };
                 with_sim(|s| {
@@ -598,6 +599,7 @@ pub fn sim_case(p: SimParams) -> impl Strategy<Value = SimCase> {
                             // high bytes fail; shrinking towards 0 removes failures
                             match graph.targets[i].kind {
                                 Kind::Build if b >= 245 => 2,
+                                Kind::Build if b >= 235 && watch => 4,
                                 Kind::Build if b >= 225 => 3,
                                 Kind::Build if b >= 195 => 1,
                                 Kind::Service if b >= 215 => 2,
